@@ -155,6 +155,14 @@ pub fn base_calls(b: &Base) -> Vec<Call> {
             }
         }
     }
+    // source iterators whose size_hint is loose or lies (steps / 8 = hint mode)
+    for algo in 0..9 {
+        for hint in 8..16_u8 {
+            for s in [vec![vs[0]], vec![*vs.last().unwrap(), vs[0]], vec![]] {
+                c.push(Call::Traverse(algo, s, 0, vec![n], 3 + 8 * hint));
+            }
+        }
+    }
     c.push(Call::Fw);
     c.push(Call::Tarjan);
     c.push(Call::Johnson);
@@ -177,6 +185,15 @@ pub fn static_calls() -> Vec<Call> {
         for r in &rows {
             c.push(Call::FromRows(t, r.clone()));
         }
+        for hint in 8..16_u8 {
+            for r in [&rows[2], &rows[6], &rows[4]] {
+                c.push(Call::FromRows(t + 3 * hint, r.clone()));
+            }
+        }
+    }
+    for ty in 0..5 {
+        c.push(Call::Weights(ty, 4, vec![(0, 0, 1), (0, 1, 2), (0, 2, 0), (0, 0, 3), (3, 0, 0), (4, 0, 0), (2, 0, 1), (7, 0, 1), (1, 0, 1), (1, 0, 1), (5, 0, 0), (6, 0, 0), (0, 1, 1), (0, 0, 4), (0, 9, 0), (2, 9, 9), (6, 9, 0), (4, 0, 0)]));
+        c.push(Call::Weights(ty, 1, vec![(4, 0, 0), (5, 0, 0), (3, 0, 0)]));
     }
     let arcs: Vec<Vec<(usize, usize)>> = vec![
         vec![],
@@ -191,6 +208,11 @@ pub fn static_calls() -> Vec<Call> {
     for t in 0..2 {
         for a in &arcs {
             c.push(Call::FromArcs(t, a.clone()));
+        }
+        for hint in 8..16_u8 {
+            for a in [&arcs[1], &arcs[3], &arcs[7]] {
+                c.push(Call::FromArcs(t + 2 * hint, a.clone()));
+            }
         }
     }
     for repr in 0..4 {
@@ -449,7 +471,8 @@ pub fn program_from_raw(
                     match k {
                         0..=7 => Call::AddArc(u, v),
                         8..=11 => Call::AddArcWeighted(u, v, w),
-                        12..=16 => Call::RemoveArc(u, v),
+                        12..=15 => Call::RemoveArc(u, v),
+                        16 => Call::Weights(x, (y % 6) as usize, list.iter().map(|&(r, c)| (c, (r % 7) as usize, (r / 7 % 7) as usize)).chain([(z, u.min(9), v.min(9)), (4, 0, 0), (3, 0, 0)]).collect()),
                         17..=19 => Call::Toggle(u, v),
                         20..=23 => Call::Q0(x),
                         24..=31 => Call::Q1(x, u),
@@ -471,7 +494,7 @@ pub fn program_from_raw(
                         }
                         62..=65 => Call::Gen(x, y, (z % 10) as usize, (ru % 4) as usize, w as u64, cu),
                         66 => Call::MatrixBig(x, vec![(y, u.min(1001), v.min(1001)), (z, v.min(1001), u.min(1001))]),
-                        67..=84 => Call::Traverse(x, vs, y, vec![u, v], z % 8),
+                        67..=84 => Call::Traverse(x, vs, y, vec![u, v], z),
                         85..=86 => Call::Bfm(u),
                         87 => Call::Fw,
                         88..=89 => Call::Tarjan,
@@ -571,6 +594,7 @@ fn call_name(c: &Call) -> String {
         Call::PredTree(..) => "PredecessorTree::search".into(),
         Call::PredTreeNew(..) => "PredecessorTree::new".into(),
         Call::Prng(..) => "Xoshiro256StarStar".into(),
+        Call::Weights(t, ..) => format!("AdjacencyListWeighted<{}>", ["()", "Box<u32>", "String", "[u64; 4]", "u8"][*t as usize % 5]),
     }
 }
 
